@@ -23,8 +23,12 @@ import (
 // correlation in every row of S.
 func c15Causal(cs *vrt.Case, r *vrt.Rng) {
 	if r.Bool() {
-		if r.Intn(3) == 0 {
+		switch r.Intn(3) {
+		case 0:
 			c15DeadEntropy(cs, r)
+			return
+		case 1:
+			c15LaterBatch(cs, r)
 			return
 		}
 		c15CausalCheckRows(cs, r)
@@ -474,4 +478,130 @@ func c15DeadEntropy(cs *vrt.Case, r *vrt.Rng) {
 		cs.Count("silent_consistent", 1)
 	}
 	cs.Key("dead-entropy", fmt.Sprint(n, col, len(rows), len(starts)))
+}
+
+// c15LaterBatch: several malicious-mode batches on one sender/receiver pair,
+// among them small ones (at most 128 rows) after a batch whose check passed,
+// and one bit of a LATER batch's payload matrix flipped in a Delta-selected
+// column. Every batch has to be checked on its own: the sender aborts, or the
+// outputs of every batch it accepted are consistent.
+func c15LaterBatch(cs *vrt.Case, r *vrt.Rng) {
+	nb := r.Range(2, 4)
+	var ns []int
+	var bs [][]bool
+	for i := 0; i < nb; i++ {
+		n := vrt.Pick(r, []int{8, 64, 100, 128, 129, 200, 600})
+		if i == 0 && r.Bool() {
+			n = vrt.Pick(r, []int{200, 600, 1100})
+		}
+		ns = append(ns, n)
+		bs = append(bs, choiceVec(r, n, 4))
+	}
+	delta := ot.Label{D0: r.U64(), D1: r.U64()}
+	col := r.Intn(128)
+	delta.SetBit(col, 1)
+	target := r.Range(1, nb-1) // the batch that is tampered with (never the first)
+	row := r.Intn(ns[target])
+	first := 0 // index of the target batch's first payload chunk among the data messages
+	for i := 0; i < target; i++ {
+		first += (ns[i]+511)/512 + 1
+	}
+	desc := map[string]any{"kind": "single flip in a later batch on one instance", "sizes": ns, "tampered_batch": target, "row": row, "column": col}
+	cs.SetSample(desc)
+	seedS, seedR := r.U64(), r.U64()
+	run := func(tamper bool) (sent, recv [][]ot.Label, serr, rerr error, pan *vrt.PanicInfo, hits int) {
+		bo1, bo2 := otx.NewIdealPair()
+		io1, io2 := otx.NewBufIOPair()
+		tio := &otx.TamperIO{IO: io1}
+		tio.DataHook = func(k int, chunk []byte) {
+			ck := first + row/512
+			if !tamper || k != ck {
+				return
+			}
+			br := len(chunk) / 128
+			rw := row % 512
+			if rw < br*8 {
+				chunk[col*br+rw/8] ^= 1 << uint(rw%8)
+				hits++
+			}
+		}
+		sent, recv = make([][]ot.Label, nb), make([][]ot.Label, nb)
+		for i := range recv {
+			recv[i] = make([]ot.Label, ns[i])
+		}
+		d := &duplex{A: tio, B: io2, doneA: io1.Close, doneB: io2.Close, finish: func() {}}
+		ra, rb := runPair(d, func() error {
+			s, err := ot.NewIKNPSender(bo1, tio, vrt.NewRng(seedS), &delta)
+			if err != nil {
+				return err
+			}
+			for i := range ns {
+				out, err := s.Send(ns[i], true)
+				if err != nil {
+					return fmt.Errorf("batch %d: %w", i, err)
+				}
+				sent[i] = out
+			}
+			return nil
+		}, func() error {
+			rc, err := ot.NewIKNPReceiver(bo2, io2, vrt.NewRng(seedR))
+			if err != nil {
+				return err
+			}
+			for i := range ns {
+				if err := rc.Receive(bs[i], recv[i], true); err != nil {
+					return fmt.Errorf("batch %d: %w", i, err)
+				}
+			}
+			return nil
+		})
+		return sent, recv, ra.err, rb.err, firstPanic(ra, rb), hits
+	}
+	check := func(sent, recv [][]ot.Label) (int, int) {
+		for i := range ns {
+			if len(sent[i]) != ns[i] {
+				continue // not accepted
+			}
+			o := c15Out{sent: sent[i], recv: recv[i]}
+			if ok, p := correlationHolds(&o, bs[i], delta); !ok {
+				return i, p
+			}
+		}
+		return -1, 0
+	}
+	sent, recv, serr, rerr, pan, _ := run(false)
+	cs.Evals++
+	cs.Count("honest_runs", 1)
+	if pan != nil {
+		c15Panic(cs, pan, desc)
+		return
+	}
+	if serr != nil || rerr != nil {
+		cs.Violate("C15|honest-abort", fmt.Sprintf("honest run of %d malicious-mode batches %v on one instance aborted: sender=%v receiver=%v", nb, ns, serr, rerr), map[string]any{"case": desc})
+		return
+	}
+	if i, p := check(sent, recv); i >= 0 {
+		cs.Violate("C15|honest-correlation", fmt.Sprintf("honest run breaks the correlation at %d (batch %d of sizes %v)", p, i, ns), map[string]any{"case": desc})
+		return
+	}
+	sent, recv, serr, _, pan, hits := run(true)
+	cs.Evals++
+	cs.Count("later_batch_flip_trials", 1)
+	if pan != nil {
+		c15Panic(cs, pan, desc)
+		return
+	}
+	if hits != 1 {
+		cs.Inconc(fmt.Sprintf("the flip did not land (%d hits)", hits))
+		return
+	}
+	if serr != nil {
+		cs.Count("aborted", 1)
+	}
+	if i, p := check(sent, recv); i >= 0 {
+		cs.Violate("C15|silent-inconsistent|later-batch", fmt.Sprintf("the sender accepted batch %d (n=%d, after %d earlier batches on the instance) although row %d of its matrix was flipped in column %d; position %d breaks the correlation", i, ns[i], i, row, col, p),
+			map[string]any{"case": desc, "delta": delta.String()})
+		return
+	}
+	cs.Key("later-batch", fmt.Sprint(ns, target, row, col))
 }
